@@ -9,6 +9,7 @@ pub mod c05;
 #[cfg(not(pv_core))]
 pub mod c07;
 pub mod c08;
+pub mod c09;
 pub mod c16;
 pub mod c17;
 pub mod c18;
@@ -34,6 +35,7 @@ pub fn run(ctx: &mut Ctx) -> bool {
         #[cfg(not(pv_core))]
         "C07" => c07::run(ctx),
         "C08" => c08::run(ctx),
+        "C09" => c09::run(ctx),
         "C16" => c16::run(ctx),
         "C17" => c17::run(ctx),
         "C18" => c18::run(ctx),
